@@ -10,6 +10,7 @@ Local Open Scope Z_scope.
 Definition name_nil : Z := 0.
 Definition name_true : Z := 1.
 Definition name_false : Z := 2.
+Definition name_blank : Z := 3.     (* the blank identifier _ *)
 
 (* what the compiler distinguishes about a go/types type *)
 Inductive ty := TInt | TStr | TBool | TIface | TPtr | TVoid | TBad.
